@@ -179,6 +179,39 @@ id_entry!(id_one_time_key, OneTimeKeyId, |x| format!("{:?} {}", x.algorithm(), x
 id_entry!(id_client_secret, ClientSecret, |x| x.as_str().len().to_string());
 id_entry!(id_session, SessionId, |x| x.as_str().len().to_string());
 
+/// All `KeyId` flavours share `ruma_identifiers_validation::key_id::validate`; one entry point runs
+/// the input through each of them (accepted = at least one flavour accepts it).
+fn id_key_id(b: &[u8]) -> R {
+    let fs: [(&str, fn(&[u8]) -> R); 6] = [
+        ("device", id_device_key),
+        ("signing_any", id_signing_key_any),
+        ("server_signing", id_server_signing_key),
+        ("cross_signing", id_cross_signing_key),
+        ("cross_or_device", id_cross_or_device_key),
+        ("one_time", id_one_time_key),
+    ];
+    let mut out = String::new();
+    let mut any = false;
+    let mut first_err = None;
+    for (n, f) in fs {
+        match f(b) {
+            Ok(s) => {
+                any = true;
+                out.push_str(&format!("{n}=ok({s});"));
+            }
+            Err(e) => {
+                out.push_str(&format!("{n}=err({e});"));
+                first_err.get_or_insert(e);
+            }
+        }
+    }
+    if any {
+        Ok(sum(&out))
+    } else {
+        Err(first_err.unwrap_or_else(|| "rejected".into()))
+    }
+}
+
 fn id_user_with_server(b: &[u8]) -> R {
     let s = utf8(b)?;
     let server: &ServerName = <&ServerName>::try_from("example.org").unwrap();
@@ -763,12 +796,7 @@ pub static ENTRIES: &[Entry] = &[
     Entry { name: "id.event", traits: T_ID, f: id_event },
     Entry { name: "id.server_name", traits: T_ID, f: id_server_name },
     Entry { name: "id.mxc", traits: T_ID | T_MXC, f: id_mxc },
-    Entry { name: "id.device_key", traits: T_ID, f: id_device_key },
-    Entry { name: "id.signing_key_any", traits: T_ID, f: id_signing_key_any },
-    Entry { name: "id.server_signing_key", traits: T_ID, f: id_server_signing_key },
-    Entry { name: "id.cross_signing_key", traits: T_ID, f: id_cross_signing_key },
-    Entry { name: "id.cross_or_device_key", traits: T_ID, f: id_cross_or_device_key },
-    Entry { name: "id.one_time_key", traits: T_ID, f: id_one_time_key },
+    Entry { name: "id.key_id", traits: T_ID, f: id_key_id },
     Entry { name: "id.room_version", traits: T_ID, f: id_room_version },
     Entry { name: "id.client_secret", traits: T_ID, f: id_client_secret },
     Entry { name: "id.session", traits: T_ID, f: id_session },
